@@ -3,7 +3,7 @@ from core import FuncSpec, CopySpec, EnumSpec, Harness
 E = 'include/jsoncons/json_encoder.hpp'
 RULES = [
     (r'JSONCONS_LIKELY\(', '(', 1), (r'semantic_tag::(\w+)', r'semantic_tag_\1', 3), (r'bignum_format_kind::(\w+)', r'bignum_format_kind_\1', 1),
-    (r'options_\.escape_all_non_ascii\(\)', 'vx_opt.escape_all_non_ascii_', 2), (r'options_\.escape_solidus\(\)', 'vx_opt.escape_solidus_', 2), (r'options_\.bignum_format\(\)', 'vx_opt.bignum_format_', 1),
+    (r'options_\.escape_all_non_ascii\(\)', 'vx_opt.escape_all_non_ascii_', 0, 3), (r'options_\.escape_solidus\(\)', 'vx_opt.escape_solidus_', 0, 3), (r'options_\.bignum_format\(\)', 'vx_opt.bignum_format_', 1),
     (r"sink_\.push_back\('\\\"'\);", 'vx_event(EV_QUOTE);', 4), (r'sink_\.append\(sv\.data\(\), sv\.length\(\)\);', 'vx_event(EV_RAW);', 1), (r'write_bignum_value\(sv\);', 'vx_event(EV_BIGNUM);', 2),
     (r'(?:std::size_t length = )?jsoncons::detail::escape_string\(sv\.data\(\), sv\.length\(\),\s*(\S+?),\s*(\S+?),\s*sink_\);', lambda m: ('size_t length = ' if False else '') + 'size_t length = vx_escape(%s, %s); (void)length;' % (m.group(1), m.group(2)), 1),
     (r'sv\.length\(\)', 'vx_len', 0, 2),
